@@ -70,6 +70,26 @@ Theorem C08_store_invariant :
 Proof. exact (fun N mf succs subj sk bad => store_invariant N mf succs subj sk bad (fun _ => false)). Qed.
 Print Assumptions C08_store_invariant.
 
+(* GC after any history, as one operation: exactly the blob files of the rebuilt graph stay, every
+   reference that is left names a node of that graph and comes from an old reference (same name,
+   same node), no tag is lost and no digest reference of a node that stays in the graph is lost - the abstract "keep the nodes of the graph" GC step of
+   Model/OciLocks.v (KRegGC / KSweep with keep = the rebuilt graph) is what gcIndex + sweep do *)
+Theorem C08_gc_effect :
+  forall (N : nat) (mf : nat -> bool) (succs : nat -> list nat) (subj : nat -> option nat)
+         (sk bad : nat -> bool) (cfg : config) (h : list (op * orders)) (o : orders),
+    wf_history mf h -> (autosave cfg = true \/ no_reopen h) ->
+    let s := run N mf succs subj sk bad true true true true true cfg h store_empty in
+    snd (st_gc N mf succs subj sk true true true cfg o s) = ROk ->
+    let s' := fst (st_gc N mf succs subj sk true true true cfg o s) in
+    blobs s' = filter (fun k => mem k (gr s')) (blobs s) /\
+    (forall r d, lookup r (r_index (res s')) = Some d -> In (d_node d) (gr s')) /\
+    (forall t d, lookup (RTag t) (r_index (res s)) = Some d -> lookup (RTag t) (r_index (res s')) <> None) /\
+    (forall k, lookup (RDig k) (r_index (res s)) <> None -> In k (gr s') -> lookup (RDig k) (r_index (res s')) <> None) /\
+    (forall r d, lookup r (r_index (res s')) = Some d ->
+       exists d0, lookup r (r_index (res s)) = Some d0 /\ d_node d0 = d_node d).
+Proof. exact (fun N mf succs subj sk bad => gc_effect_history N mf succs subj sk bad (fun _ => false)). Qed.
+Print Assumptions C08_gc_effect.
+
 (* index.json written by saveIndex is, for every pair of iteration orders, a projection of
    the resolver map from which loadIndex rebuilds it *)
 Theorem C08_save_is_projection :
@@ -195,6 +215,30 @@ Theorem C08_sweep_and_orders_as_in_the_sources :
    c08_calls_GC = [b "s.sync.Lock"; b "s.gcIndex"; b "s.saveIndex"; b "os.Remove"]).
 Proof. exact (conj gc_sweep_as_in_the_sources load_and_delete_order_as_in_the_sources). Qed.
 Print Assumptions C08_sweep_and_orders_as_in_the_sources.
+
+(* the control flow around the effects (kind callguards): Store.tag registers the digest entry first
+   iff the reference is not the digest ([is_digest_ref] in st_tag) and saves iff AutoSaveIndex
+   ([maybe_save]); delete() drops the references of the target's DIGEST and saves iff something
+   changed and AutoSaveIndex ([changed] in delete1); GC saves iff AutoSaveIndex; Push tags manifests
+   only and removes content it cannot index; Tag indexes manifests only; loadIndex registers the tag
+   iff the ref name is not empty ([load_entry]) *)
+Theorem C08_guards_as_in_the_sources :
+  c08_guards_tag =
+    [(b "s.tagResolver.Tag"%string, [b "reference != dgst"%string]); (b "s.tagResolver.Tag"%string, []); (b "s.saveIndex"%string, [b "s.AutoSaveIndex"%string])] /\
+  c08_guards_Untag =
+    [(b "s.tagResolver.Untag"%string, []); (b "s.saveIndex"%string, [b "s.AutoSaveIndex"%string])] /\
+  c08_guards_delete =
+    [(b "s.tagResolver.Untag"%string, [b "desc.Digest == target.Digest"%string]); (b "s.tagResolver.Tag"%string, []); (b "s.saveIndex"%string, [b "indexChanged && s.AutoSaveIndex"%string]); (b "s.storage.Delete"%string, [])] /\
+  c08_guards_GC =
+    [(b "s.gcIndex"%string, []); (b "s.tagResolver.Tag"%string, []); (b "s.saveIndex"%string, [b "s.AutoSaveIndex"%string])] /\
+  c08_guards_Push =
+    [(b "s.storage.Push"%string, []); (b "s.graph.Index"%string, []); (b "s.storage.Delete"%string, [b "err != nil"%string]); (b "s.tag"%string, [b "descriptor.IsManifest(expected)"%string])] /\
+  c08_guards_Tag =
+    [(b "s.storage.Exists"%string, []); (b "s.graph.Index"%string, [b "descriptor.IsManifest(desc)"%string]); (b "s.tag"%string, [])] /\
+  c08_guards_loadIndex =
+    [(b "tagger.Tag"%string, []); (b "tagger.Tag"%string, [b "ref != ''"%string]); (b "graph.IndexAll"%string, [])].
+Proof. exact guards_as_in_the_sources. Qed.
+Print Assumptions C08_guards_as_in_the_sources.
 
 (* any number of threads, each running any list of index-saving operations (registrations in
    the resolver followed by saveIndex as in the sources), under EVERY schedule: once all have
@@ -331,6 +375,25 @@ Theorem C08_store_operations_reload :
     (forall k, lookup (RDig k) ix' <> None <-> lookup (RDig k) (ll_live s) <> None).
 Proof. exact store_operations_reload. Qed.
 Print Assumptions C08_store_operations_reload.
+
+(* Delete with AutoGC: the cascade of delete() calls under ONE exclusive lock (target, referrers,
+   danglings; a manifest that loses its last predecessor gets a digest reference), assembled from the
+   generated call sequences of Store.Delete / delete, respects the lock discipline for EVERY queue in
+   which no node gets a digest reference after it was deleted - so C08_lock_discipline_sufficient
+   covers threads that run it next to any other operations *)
+Theorem C08_delete_cascade_respects_lock_discipline :
+  (forall k ds, prog_delete_item k ds =
+     [KRegDelete k] ++ flat_map (fun d => [KExists d; KReg (RegDig (plain d))]) ds ++
+     [KSave SLock; KSave SSnap; KSave SWrite; KSave SUnlock; KRemove k]) /\
+  forall items, cascade_wf [] items = true -> check ts0 (prog_delete_auto items) = true.
+Proof. exact (conj delete_item_explicit delete_auto_checked). Qed.
+Print Assumptions C08_delete_cascade_respects_lock_discipline.
+
+Example C08_delete_cascade_example :
+  cascade_wf [] [(2, [3]); (1, [])] = true /\
+  (let s := l_run (map (fun i => (i, ([], []))) ([1; 1; 1] ++ repeat 0 5 ++ repeat 1 12 ++ repeat 0 30)) exa_s0 in
+   l_quiescent s /\ ll_blobs s = [3] /\ ll_live s = [(RDig 3, plain 3)] /\ ll_disk s = [plain 3]).
+Proof. exact delete_auto_example. Qed.
 
 (* the lock placements of the two seeded changes are rejected by the checker, and the second one
    (Exists before RLock) run against a Delete ends with a tag, in memory and in index.json, on
